@@ -214,6 +214,7 @@ func genC01(seed uint64, idx int) *Plan {
 		p.Resume = false
 	}
 	p.NoCCS = idx%4 == 1
+	p.CopyUp = idx%3 == 2 && p.Forward
 	if idx%4 == 3 && p.Forward {
 		p.SlowWriteReturnMs = []int{1, 20, 300}[(idx/4)%3]
 	}
